@@ -1262,6 +1262,7 @@ pub fn generate(ctx: &mut Ctx) {
     let tinies: Vec<(&str, Inst)> = vec![
         ("edge-01", tiny(2, &[(0, 1)], &[0, 1], None)),
         ("edge-01-imb2", tiny(2, &[(0, 1)], &[0, 1], big)),
+        ("single-edge-imb2-reduced", tiny(2, &[(0, 1)], &[0, 1], big)),
         ("path3-010-imb2", tiny(3, &p3, &[0, 1, 0], big)),
         ("path3-012-imb2", tiny(3, &p3, &[0, 1, 2], big)),
         ("path4-0101-imb2", tiny(4, &p4, &[0, 1, 0, 1], big)),
